@@ -46,6 +46,9 @@ def body(led):
     # rides on the skin amplitudes) the skin's edge flags
     py_stiffeners.check_bladestiff2d(led, only=('kM',))
     py_stiffeners.check_tstiff2d_kG0_kM(led, only=('kM',))
+    # ... and the components are created with the definition the bay was given (density, laminates, geometry of the skin surface)
+    from . import c13_bay
+    c13_bay.check_constructors(led)
     ok, _ = K.compare(real('mu') * 2, real('mu'))
     led.canary('2*mu vs mu', not ok)
 
